@@ -92,7 +92,7 @@ func matchWire(msgs []wsref.WireMsg, sent []Sent) error {
 	}
 	var sd, sc []int
 	for i, s := range sent {
-		if s.Bad {
+		if s.Bad || (s.OptionalEmpty && !s.OnWire) {
 			continue
 		}
 		if s.Control {
